@@ -179,6 +179,8 @@ Section Energy.
   Proof. unfold pairing. rewrite <- fsum_map_scal. apply fsum_map_ext. intros; ring. Qed.
   Lemma pairing_add_r f g g' : pairing f (fun k => g k + g' k) = pairing f g + pairing f g'.
   Proof. unfold pairing. rewrite <- fsum_map_add. apply fsum_map_ext. intros; ring. Qed.
+  Lemma pairing_fadd f g g' : pairing f (fadd F g g') = pairing f g + pairing f g'.
+  Proof. unfold fadd. apply pairing_add_r. Qed.
   Lemma pairing_mul_r (p f g : field F) : pairing f (fun k => p k * g k) = pairing (fun k => p (negi k) * f k) g.
   Proof. unfold pairing. apply fsum_map_ext. intros k _. rewrite negi_invol. ring. Qed.
   Lemma pairing_ext_r f g g' : (forall k, g k = g' k) -> pairing f g = pairing f g'.
@@ -320,3 +322,69 @@ Section Energy.
     rewrite !pairing_scal_r, vorticity_no_enstrophy_work, vorticity_no_energy_work. split; ring.
   Qed.
 End Energy.
+
+(* ---- 3D rotational form u x curl u, Leray-projected: no work on divergence-free band-limited states ---- *)
+Section Rot3Energy.
+  Variable F : FieldT.
+  Add Field Ffr : (fth F).
+  Local Open Scope fld_scope.
+  Variables (N Kc : Z).
+  Hypothesis N_pos : (0 < N)%Z.
+  Hypothesis K_nonneg : (0 <= Kc)%Z.
+  Hypothesis K_small : (3 * Kc < N)%Z.
+  Variables (ii s : F).
+  Notation P2 := (prod2 F 3 N Kc).
+  Notation pr := (pairing F 3 Kc).
+  Notation T := (T3 F 3 Kc).
+  Notation d := (dc F ii s).
+
+  (* a . (a x b) = 0 at the level of band triple sums: for ANY second vector b *)
+  Lemma triple_product_zero (a0 a1 a2 b0 b1 b2 : field F) :
+    let c := cross F P2 [a0; a1; a2] [b0; b1; b2] in
+    pr (msk F Kc a0) (nth 0 c (fzero F)) + pr (msk F Kc a1) (nth 1 c (fzero F)) + pr (msk F Kc a2) (nth 2 c (fzero F)) = 0.
+  Proof.
+    cbv zeta. unfold cross. cbn [nth]. unfold fadd, fscal.
+    rewrite !(pairing_add_r F 3 Kc), !(pairing_scal_r F 3 Kc), !(pairing_prod2 F 3 N Kc N_pos K_nonneg K_small).
+    rewrite (T3_swap12 F 3 Kc K_nonneg (msk F Kc a1) (msk F Kc a0) (msk F Kc b2)).
+    rewrite (T3_swap12 F 3 Kc K_nonneg (msk F Kc a2) (msk F Kc a1) (msk F Kc b0)).
+    rewrite (T3_swap12 F 3 Kc K_nonneg (msk F Kc a0) (msk F Kc a2) (msk F Kc b1)).
+    ring.
+  Qed.
+
+  (* <f, grad p> = - <div f, p> = 0 for divergence-free f *)
+  Lemma pairing_grad_zero (f0 f1 f2 p : field F) :
+    (forall m, in_band Kc m = true -> d 0 m * f0 m + d 1 m * f1 m + d 2 m * f2 m = 0) ->
+    pr f0 (fmulp F (d 0) p) + pr f1 (fmulp F (d 1) p) + pr f2 (fmulp F (d 2) p) = 0.
+  Proof.
+    intros Hdiv. unfold pairing, fmulp. rewrite <- !fsum_map_add. rewrite (fsum_map_ext F _ _ (fun _ => 0)); [apply fsum_map_zero|].
+    intros k Hk. apply (in_bandD 3 Kc k K_nonneg) in Hk. destruct Hk as [_ Hb].
+    assert (Hn : in_band Kc (negi k) = true) by (rewrite in_band_negi; exact Hb).
+    pose proof (Hdiv (negi k) Hn) as H. rewrite !dc_negi in H.
+    transitivity (- p k * (- d 0 k * f0 (negi k) + - d 1 k * f1 (negi k) + - d 2 k * f2 (negi k))); [ring | rewrite H; ring].
+  Qed.
+
+  Theorem projected_conv_no_work (u0 u1 u2 : field F) :
+    (forall m, in_band Kc m = true -> d 0 m * u0 m + d 1 m * u1 m + d 2 m * u2 m = 0) ->
+    let Nl := projected_conv F P2 ii s 3 [u0; u1; u2] in
+    pr (msk F Kc u0) (nth 0 Nl (fzero F)) + pr (msk F Kc u1) (nth 1 Nl (fzero F)) + pr (msk F Kc u2) (nth 2 Nl (fzero F)) = 0.
+  Proof.
+    intros Hdiv. cbv zeta. unfold projected_conv.
+    set (w := curl F ii s [u0; u1; u2]).
+    assert (Hw : exists w0 w1 w2, w = [w0; w1; w2]) by (unfold w, curl, cross; eauto).
+    destruct Hw as (w0 & w1 & w2 & Ew). rewrite Ew.
+    pose proof (triple_product_zero u0 u1 u2 w0 w1 w2) as HT. cbv zeta in HT.
+    set (c := cross F P2 [u0; u1; u2] [w0; w1; w2]) in *.
+    assert (Hc : exists c0 c1 c2, c = [c0; c1; c2]) by (unfold c, cross; eauto).
+    destruct Hc as (c0 & c1 & c2 & Ec). rewrite Ec in *. cbn [nth] in HT.
+    unfold leray, axes. cbv zeta. cbn [seq map2 nth].
+    rewrite !(pairing_fadd F 3 Kc).
+    set (q := fscal F (- (1)) (fmulp F (inv_lap_zero F ii s 3) (fsumf F [fmulp F (dc F ii s 0) c0; fmulp F (dc F ii s 1) c1; fmulp F (dc F ii s 2) c2]))).
+    pose proof (pairing_grad_zero (msk F Kc u0) (msk F Kc u1) (msk F Kc u2) q) as HG.
+    assert (Hm : forall m, in_band Kc m = true -> d 0 m * msk F Kc u0 m + d 1 m * msk F Kc u1 m + d 2 m * msk F Kc u2 m = 0).
+    { intros m Hb. unfold msk. rewrite Hb. apply Hdiv. exact Hb. }
+    specialize (HG Hm).
+    transitivity ((pr (msk F Kc u0) c0 + pr (msk F Kc u1) c1 + pr (msk F Kc u2) c2)
+                  + (pr (msk F Kc u0) (fmulp F (d 0) q) + pr (msk F Kc u1) (fmulp F (d 1) q) + pr (msk F Kc u2) (fmulp F (d 2) q))); [ring|].
+    rewrite HT, HG. ring.
+  Qed.
+End Rot3Energy.
